@@ -27,6 +27,8 @@ fn prompt_model(op: &Op1, evs: &[TEv]) -> Vec<Note> {
   let mut trailing: Option<V> = None;
   // sample
   let mut latest: Option<V> = None;
+  // stateful selector: number of windows opened so far
+  let mut windows_opened = 0usize;
   // buffers
   let mut buf: Vec<V> = vec![];
   for ev in evs {
@@ -45,7 +47,7 @@ fn prompt_model(op: &Op1, evs: &[TEv]) -> Vec<Note> {
               }
             }
           }
-          Op1::ThrottleTime(..) | Op1::ThrottleBy(_) => {
+          Op1::ThrottleTime(..) | Op1::ThrottleBy(_) | Op1::ThrottleCalls(_) => {
             if window_end == Some(now) {
               window_end = None;
               if let Some(v) = trailing.take() {
@@ -70,9 +72,18 @@ fn prompt_model(op: &Op1, evs: &[TEv]) -> Vec<Note> {
       }
       TEv::Src(Note::N(v)) => match op {
         Op1::Debounce(w) => pending = Some((v.clone(), now + w)),
-        Op1::ThrottleTime(_, edge) | Op1::ThrottleBy(edge) => {
+        Op1::ThrottleTime(_, edge) | Op1::ThrottleBy(edge) | Op1::ThrottleCalls(edge) => {
+          // the selector is asked once per window, for the item that opens it
           let w = match op {
             Op1::ThrottleTime(w, _) => *w,
+            Op1::ThrottleCalls(_) => {
+              if window_end.is_none() {
+                windows_opened += 1;
+                throttle_calls_window(windows_opened - 1)
+              } else {
+                0
+              }
+            }
             _ => throttle_by_window(v),
           };
           if edge.tailing() {
@@ -104,7 +115,7 @@ fn prompt_model(op: &Op1, evs: &[TEv]) -> Vec<Note> {
               out.push(Note::N(v));
             }
           }
-          Op1::ThrottleTime(..) | Op1::ThrottleBy(_) => {
+          Op1::ThrottleTime(..) | Op1::ThrottleBy(_) | Op1::ThrottleCalls(_) => {
             if let Some(v) = trailing.take() {
               out.push(Note::N(v));
             }
@@ -144,7 +155,7 @@ fn flatten_items(notes: &[Note], buffers: bool) -> Vec<V> {
 fn rate_job(op: Op1, form: Form, len: usize, devs: u32) -> Job {
   let pipe = Pipe::hot(0).o1(op.clone());
   let opname = match &op {
-    Op1::ThrottleTime(_, e) | Op1::ThrottleBy(e) => format!("{}({e:?})", op.name()),
+    Op1::ThrottleTime(_, e) | Op1::ThrottleBy(e) | Op1::ThrottleCalls(e) => format!("{}({e:?})", op.name()),
     _ => op.name().to_string(),
   };
   let buffers = matches!(op, Op1::BufferWithTime(_) | Op1::BufferWithCountAndTime(..));
@@ -309,6 +320,7 @@ pub fn plan(tier: Tier) -> Plan {
   }
   for e in [Edge::Leading, Edge::Tailing, Edge::All] {
     ops.push(Op1::ThrottleBy(e));
+    ops.push(Op1::ThrottleCalls(e));
   }
   ops.push(Op1::BufferWithCountAndTime(1, 2));
   ops.push(Op1::BufferWithCountAndTime(3, 1));
